@@ -234,6 +234,133 @@ async fn run_layout(run: usize, ups: &[Value], lay: &Value, ckpt_l: u64, wal_fil
     rec
 }
 
+/// Checkpoints written by the repository's own CheckpointManager while the flusher keeps going: segments are flushed by the
+/// real StreamingPersistence; the checkpointer notes the last segment it knows, takes its snapshot (the merge of everything
+/// flushed so far), 0-2 more flushes land, and only then `create_checkpoint(snapshot, last_known)` runs and its result is
+/// published the way a manifest is compacted (`compact_segments`).  Judged like any layout: recovery = merge of everything.
+async fn run_ckptmgr(run: usize, ups: &[Value], before: usize, between: usize, after: usize) -> Value {
+    use redis_sim::streaming::{CheckpointConfig, CheckpointManager, StreamingPersistence, WriteBufferConfig};
+    use std::sync::Arc;
+    let by_id: HashMap<u64, ReplicationDelta> = ups.iter().map(|d| (d["id"].as_u64().unwrap(), mk_delta(d))).collect();
+    let all_ids: Vec<u64> = ups.iter().map(|d| d["id"].as_u64().unwrap()).collect();
+    let store = Arc::new(InMemoryObjectStore::new());
+    let mut rec = json!({"t": "layout", "run": run, "through": "CheckpointManager", "shape": [before, between, after],
+                         "ups": ups.iter().map(|d| json!([d["id"], d["k"], crate::crdt::obs(&by_id[&d["id"].as_u64().unwrap()].value)])).collect::<Vec<_>>(),
+                         "ckpt": [], "seg1": all_ids, "seg2": [], "wal": [], "L": 0, "fold": [], "fold_wal": [], "node": [], "node2": [], "err": ""});
+    let mut sp = match StreamingPersistence::new(store.clone(), PREFIX.to_string(), 1, WriteBufferConfig::test()).await {
+        Ok(x) => x,
+        Err(e) => { rec["err"] = json!(format!("persistence: {e}")); return rec; }
+    };
+    // the updates are dealt to before + between + after flushes, in id order
+    let nseg = before + between + after;
+    let mut groups: Vec<Vec<u64>> = vec![Vec::new(); nseg];
+    for (i, id) in all_ids.iter().enumerate() {
+        groups[(i * nseg) / all_ids.len().max(1)].push(*id);
+    }
+    let mut last_known = 0u64;
+    let mut snapshot: HashMap<String, ReplicatedValue> = HashMap::new();
+    let mut have_ckpt_input = false;
+    for (g, ids) in groups.iter().enumerate() {
+        if g == before + between && have_ckpt_input {
+            // the checkpoint is written only now
+            let mm = ManifestManager::new((*store).clone(), PREFIX);
+            let cm = CheckpointManager::new(store.clone(), PREFIX.to_string(), mm.clone(), CheckpointConfig::test());
+            match cm.create_checkpoint(snapshot.clone(), last_known).await {
+                Ok(r) => {
+                    if let Ok(mut manifest) = mm.load().await {
+                        manifest.compact_segments(CheckpointInfo { key: r.key.clone(), timestamp_ms: r.timestamp_ms, key_count: r.key_count, last_segment_id: r.last_segment_id });
+                        if let Err(e) = mm.save(&manifest).await { rec["err"] = json!(format!("manifest: {e}")); return rec; }
+                    }
+                }
+                Err(e) => { rec["err"] = json!(format!("create_checkpoint: {e}")); return rec; }
+            }
+        }
+        for id in ids {
+            let _ = sp.push(by_id[id].clone());
+        }
+        match sp.flush().await {
+            Ok(fr) => {
+                if g < before {
+                    if let Some(seg) = fr.segment {
+                        last_known = seg.id;
+                        have_ckpt_input = true;
+                    }
+                    for id in ids {
+                        let d = &by_id[id];
+                        let v = match snapshot.get(&d.key) { Some(c) => c.merge(&d.value), None => d.value.clone() };
+                        snapshot.insert(d.key.clone(), v);
+                    }
+                }
+            }
+            Err(e) => { rec["err"] = json!(format!("flush: {e}")); return rec; }
+        }
+    }
+    let rm = RecoveryManager::new((*store).clone(), PREFIX, 1);
+    match rm.recover().await {
+        Ok(rs) => {
+            rec["fold"] = fold_state(rs.checkpoint_state.clone(), &rs.deltas);
+            rec["fold_wal"] = rec["fold"].clone();
+            rec["node"] = node_state(rs.checkpoint_state.clone(), rs.deltas.clone(), 1).await;
+            rec["node2"] = node_state(rs.checkpoint_state, rs.deltas, 2).await;
+        }
+        Err(e) => rec["err"] = json!(format!("recover: {e}")),
+    }
+    rec
+}
+
+/// A recovered state far larger than any mailbox or batch bound, applied to a real node the way the server does at start-up:
+/// one key rewritten `n` times across eight segments (plus a few hundred bystanders), recovered, applied; the node must hold
+/// the newest write of the hot key and every bystander.
+async fn run_bignode(run: usize, n: usize) -> Value {
+    let store = InMemoryObjectStore::new();
+    let mm = ManifestManager::new(store.clone(), PREFIX);
+    let mut manifest = Manifest::new(1);
+    let mut hot: Vec<Value> = Vec::new();
+    let per = n / 8 + 1;
+    let mut id = 0usize;
+    for sid in 1..=8u64 {
+        let mut w = SegmentWriter::new(Compression::None);
+        let (mut lo, mut hi, mut cnt) = (u64::MAX, 0u64, 0u32);
+        for _ in 0..per {
+            id += 1;
+            if id > n { break; }
+            let d = mk_delta(&json!({"id": id, "k": "hot", "t": "set", "v": format!("v{id}"), "ts": id, "r": 1}));
+            hot.push(json!([id, 1, format!("v{id}")]));
+            w.write_delta(&d).unwrap();
+            lo = lo.min(id as u64); hi = hi.max(id as u64); cnt += 1;
+        }
+        for b in 0..25 {
+            let d = mk_delta(&json!({"id": 1_000_000 + sid * 100 + b, "k": format!("by{sid}:{b}"), "t": "set", "v": "x", "ts": sid * 100 + b + 1, "r": 2}));
+            w.write_delta(&d).unwrap();
+            cnt += 1;
+        }
+        if cnt == 0 { continue; }
+        let data = w.finish().unwrap();
+        let key = format!("{}/segments/segment-{:08}.seg", PREFIX, sid);
+        store.put(&key, &data).await.unwrap();
+        manifest.add_segment(SegmentInfo { id: sid, key, record_count: cnt, size_bytes: data.len() as u64, min_timestamp: lo.min(sid * 100 + 1), max_timestamp: hi.max(sid * 100 + 25) });
+    }
+    mm.save(&manifest).await.unwrap();
+    let mut rec = json!({"t": "bignode", "run": run, "n": n, "hot": hot, "bystanders": 200, "err": ""});
+    let rm = RecoveryManager::new(store.clone(), PREFIX, 1);
+    match rm.recover().await {
+        Ok(rs) => {
+            let node = ReplicatedShardedState::new(ReplicationConfig { replica_id: 9, ..Default::default() });
+            node.apply_recovered_state(rs.checkpoint_state, rs.deltas);
+            let snap = node.snapshot_state().await;
+            rec["node_hot"] = match snap.get("hot") {
+                Some(v) => json!([v.timestamp.time, v.timestamp.replica_id.0, v.get().map(|s| String::from_utf8_lossy(s.as_bytes()).to_string()).unwrap_or_default()]),
+                None => json!([0, 0, "<absent>"]),
+            };
+            rec["node_keys"] = json!(snap.len());
+            let g = node.execute(crate::repl::argv_cmd(&["GET", "hot"])).await;
+            rec["get_hot"] = json!(format!("{g:?}"));
+        }
+        Err(e) => rec["err"] = json!(format!("recover: {e}")),
+    }
+    rec
+}
+
 fn random_updates(rng: &mut impl Rng) -> Vec<Value> {
     // kinds are fixed per key (type mismatches are C07's subject); 16 interleaved shard clocks,
     // remote stamps far ahead, ties on time between replicas
@@ -312,6 +439,30 @@ pub fn main(args: &[String]) -> i32 {
                 let fsz = if rng.gen_bool(0.5) { 150 } else { 1 << 20 };
                 if let Ok(v) = catch(|| rt.block_on(run_layout(n, &ups, &lay, 0, fsz))) {
                     out.emit(&v);
+                }
+            }
+        }
+        Some("ckptmgr") => {
+            let mut rng = rng(a.u64("seed", 1));
+            for _ in 0..a.usize("n", 100) {
+                let mut ups = random_updates(&mut rng);
+                while ups.len() < 4 {
+                    ups = random_updates(&mut rng);
+                }
+                let n = out.n + 1;
+                let (before, between, after) = (rng.gen_range(1..=2usize), rng.gen_range(0..=2usize), rng.gen_range(0..=1usize));
+                match catch(|| rt.block_on(run_ckptmgr(n, &ups, before, between, after))) {
+                    Ok(v) => out.emit(&v),
+                    Err(p) => out.emit(&json!({"t": "layout", "run": n, "ups": [], "ckpt": [], "seg1": [], "seg2": [], "wal": [], "L": 0, "fold": [], "fold_wal": [], "node": [], "node2": [], "err": format!("panic: {p}")})),
+                }
+            }
+        }
+        Some("bignode") => {
+            for n in [3000usize, 12000, 40000] {
+                let run = out.n + 1;
+                match catch(|| rt.block_on(run_bignode(run, n))) {
+                    Ok(v) => out.emit(&v),
+                    Err(p) => out.emit(&json!({"t": "bignode", "run": run, "n": n, "hot": [], "err": format!("panic: {p}")})),
                 }
             }
         }
